@@ -551,6 +551,41 @@ struct ThrowDtorFromInt {
     ThrowDtorFromInt(int) noexcept { }
     ~ThrowDtorFromInt() noexcept(false) { }
 };
+// ---- round 5: ADL swap whose noexcept-ness is independent of the moves; const&-only conversions to a CLASS target
+template <bool SwapNoexcept, int Move>
+struct SwZ; // Move: 0 noexcept moves, 1 throwing moves, 2 deleted moves
+template <bool SN>
+struct SwZ<SN, 0> {
+    SwZ() = default;
+    SwZ(SwZ&&) noexcept { }
+    SwZ& operator=(SwZ&&) noexcept { return *this; }
+    friend void swap(SwZ&, SwZ&) noexcept(SN) { }
+};
+template <bool SN>
+struct SwZ<SN, 1> {
+    SwZ() = default;
+    SwZ(SwZ&&) noexcept(false) { }
+    SwZ& operator=(SwZ&&) noexcept(false) { return *this; }
+    friend void swap(SwZ&, SwZ&) noexcept(SN) { }
+};
+template <bool SN>
+struct SwZ<SN, 2> {
+    SwZ()                 = default;
+    SwZ(SwZ&&)            = delete;
+    SwZ& operator=(SwZ&&) = delete;
+    friend void swap(SwZ&, SwZ&) noexcept(SN) { }
+};
+struct CrefTarget { };
+struct CrefConvA { // only a const lvalue converts: "false ? A&& : B&&" is ill-formed, the const& form yields a prvalue "CrefTarget const"
+    operator CrefTarget() const& { return {}; }
+    operator CrefTarget() && = delete;
+};
+struct CtorD { };
+struct CtorC { // constructible from a const lvalue CtorD only
+    CtorC() = default;
+    CtorC(CtorD const&) { }
+    CtorC(CtorD&&) = delete;
+};
 using FnPtr = void (*)();
 struct NoValue { }; // has no ::value (conjunction / disjunction short-circuit probes)
 enum E { e0, e1 };
@@ -634,7 +669,7 @@ struct R {
 };
 struct Cell {
     unsigned short trait;
-    unsigned short subj;
+    unsigned subj;
     R r;
 };
 struct Subject {
